@@ -6,12 +6,13 @@ LEVEL = 'proof'
 EXPLANATION = ('K1: handle_cell (title / column letters / row text -> 0-based integers, unknown title and row 0 rejected), '
                'Cell.uid, Excel._fill_cell (blank outside stored data, no IndexError for any integers), vertical / horizontal '
                'range and rectangular matrix loops (row-major, with loop invariants), the get_range / get_matrix dispatch and '
-               'get_similar_second; K2: openpyxl column_index_from_string equals bijective base-26 on its whole domain; K-S: '
+               'get_similar_second, Excel.get_cells (three nested loops: a fresh filled cell for every stored position, nothing else); K2: openpyxl column_index_from_string equals bijective base-26 on its whole domain; K-S: '
                'reference translators emit the cells in the order of the returned cells, with the sheet of the prefix or the '
                'formula\'s own sheet; the reference regexes (back-references, look-aheads) are bounded only.')
 MOD = 'contracts.c02'
 K1 = ['handle_cell', 'Excel._fill_cell', 'Excel.fill_cell', 'Excel._get_vertical_range', 'Excel._get_horizontal_range',
-      'Excel._get_matrix', 'Excel.get_matrix/rect', 'Excel.get_matrix/column', 'Excel.get_range', 'Excel.get_similar_second']
+      'Excel._get_matrix', 'Excel.get_matrix/rect', 'Excel.get_matrix/column', 'Excel.get_range', 'Excel.get_similar_second',
+      'Excel.get_cells']
 TITLES = ('S', 'Other sheet', "T2")
 CELLS = [[1, 1, 1, 5], [1, 2, 2, 7], [2, 1, 1, 9]]
 TABLE = [
